@@ -37,7 +37,7 @@ pub struct Case {
 pub fn cases(seed: u64, n_random: usize) -> Vec<Case> {
     let mut out = Vec::new();
     let mut rng = Rng::new(mix(seed, &[tag("C20"), tag("e1")]));
-    let gp = gen::GenParams { flavor: gen::Flavor::Git, sections: vec![gen::SectionKind::Modified], max_hunks: 1, pivot: 2, max_run: 3, with_commit_preamble: false, multibyte: false, no_newline_marker: false, similar_pairs: false, no_index_lines: false, no_prefix: false, line_number_class: 0, long_line_pct: 0 };
+    let gp = gen::GenParams { flavor: gen::Flavor::Git, sections: vec![gen::SectionKind::Modified], max_hunks: 1, pivot: 2, max_run: 3, with_commit_preamble: false, multibyte: false, no_newline_marker: false, similar_pairs: false, no_index_lines: false, no_prefix: false, line_number_class: 0, long_line_pct: 0, path_style: 0 };
     let lines = gen::generate(&mut rng, &gp);
     let diff = gen::to_bytes(&lines);
     let tokens: Vec<u32> = lines.iter().filter(|l| l.kind != gen::LineKind::HunkHeader).filter_map(|l| l.token.as_ref().map(|t| simcore::text::token_num(t))).collect();
